@@ -133,6 +133,7 @@ def gen_cases(ctx):
             for k in ('expr', 'args', 'updatable', 'bfuns'):
                 if k in spec:
                     c[k] = spec[k]
+            c['want_source'] = bool(spec.get('updates') or spec.get('updatable'))
             if spec.get('updates'):
                 c['updates'] = spec['updates']
                 c['upd_symmetric'] = bool(rng.getrandbits(1)) and bool(spec.get('symmetric'))
@@ -454,6 +455,30 @@ def coq_case_file(case, res):
     return text, labels
 
 
+UPD_HEADER = '''From Coq Require Import List Bool Arith.
+From Verif.C08 Require Import Update.
+Import ListNotations.
+Fixpoint bad (k : nat) (cs : list bool) : list nat :=
+  match cs with [] => [] | c :: cs' => if c then bad (S k) cs' else k :: bad (S k) cs' end.
+'''
+
+
+def carr(a):
+    return '(%d, %d, %d, %d)' % tuple(a)
+
+
+def coq_update_file(tables):
+    """tables: list of translate.c08_update_text results; two obligations per form (fields, constants)"""
+    cs = []
+    for t in tables:
+        cs.append('update_okb %s %s %s' % (clist([carr(a) for a in t['arrs']]),
+                                           clist(['(%d, %s)' % (n, clist([carr(a) for a in bl])) for n, bl in t['upd']]),
+                                           clist(t['temp_srcs'])))
+        cs.append('update_okb %s %s []' % (clist([carr(a) for a in t['parrs']]),
+                                          clist(['(%d, %s)' % (n, clist([carr(a) for a in bl])) for n, bl in t['pupd']])))
+    return UPD_HEADER + 'Eval vm_compute in bad 0 %s.\n' % clist(cs)
+
+
 def coq_chunks_file(items):
     """items: list of (n, k, impl chunks).  Model: chunk_tasks (seq 0 n) k."""
     cs = []
@@ -671,7 +696,7 @@ def run(ctx):
     xdg = vform_cache_dir(ctx)
     # the 1-thread reference run, split over processes by form name (a form is compiled by one process only)
     names = sorted({c['name'] for c in cases})
-    NG = 6
+    NG = 4
     groups = [[k for k, c in enumerate(cases) if names.index(c['name']) % NG == g] for g in range(NG)]
 
     def ref_run(g):
@@ -698,7 +723,7 @@ def run(ctx):
         p = {'cases': [strip_case(c) for c in cases], 'threads': n, 'mode': 'digest'}
         return n, ctx.impl.run(DRIVER, p, timeout=2400, xdg=xdg)
     jobs = [n for n in tcounts for _ in range(reps)]
-    with ThreadPoolExecutor(max_workers=5) as ex:
+    with ThreadPoolExecutor(max_workers=4) as ex:
         tres = list(ex.map(one, jobs))
     log('[C08] %d thread-count runs done at %.1fs' % (len(jobs), time.time() - t0))
     nthread_cmp = 0
@@ -762,6 +787,39 @@ def run(ctx):
         files.append(('C08_chunks_%03d' % len(files), coq_chunks_file(g)))
     titems = list(zip(transp_items, r1['transp']))
     files.append(('C08_transp', coq_transp_file(titems)))
+    # generated update()/update_params() text of every compiled corpus form -> the generator's obligation
+    from translate import c08_update_text
+    upd_tables, upd_cases = [], []
+    seen_src = set()
+    for case, res in zip(cases, results):
+        if not case.get('want_source'):
+            continue
+        srctext = res['info'].get('gen_src')
+        if srctext is None:
+            ctx.broken.append('generated source of %s not available: %s' % (case['name'], res['status'].get('gen_src')))
+            continue
+        if (case['name'], hashlib.sha1(srctext.encode()).hexdigest()) in seen_src:
+            continue
+        seen_src.add((case['name'], hashlib.sha1(srctext.encode()).hexdigest()))
+        try:
+            t = c08_update_text.tables_from_source(srctext)
+        except ValueError as e:
+            ctx.broken.append('generated code of %s not understood by translate/c08_update_text.py: %s' % (case['name'], e))
+            continue
+        want = list(case.get('updatable') or [])
+        have = [t['inputs'][n] for n, _ in t['upd']]
+        if sorted(want) != sorted(have):
+            ctx.broken.append('update() of %s takes %s, declared updatable %s' % (case['name'], have, want))
+            ctx.report('tie:update-signature:%s' % case['name'],
+                       'generated update() of %r accepts %s but %s were declared updatable' % (case['expr'], have, want),
+                       {'case': strip_case(case)}, found_input=True)
+        upd_tables.append(t)
+        upd_cases.append(case)
+        ctx.count(('updtext', case['name'], len(t['arrs']), len(t['parrs'])), nontrivial=bool(t['upd'] or t['pupd']))
+    upd_file_idx = None
+    if upd_tables:
+        upd_file_idx = len(files)
+        files.append(('C08_update_text', coq_update_file(upd_tables)))
     for b, r in titems:
         ctx.count(('transp', b), nontrivial=True)
     outs = ctx.coq_eval_many(files, timeout=1500)
@@ -785,6 +843,17 @@ def run(ctx):
                            'the model predicts %s of case %s exactly from the entries over the full pattern; the implementation returned something else' % (lab, case['id']),
                            {'case': strip_case(case), 'output': lab, 'coq_file': 'coq/gen/%s.v' % name},
                            found_input=True)
+            elif idx == upd_file_idx:
+                case = upd_cases[b // 2]
+                which = 'update()' if b % 2 == 0 else 'update_params()'
+                t = upd_tables[b // 2]
+                ctx.broken.append('generated %s of %s does not refresh exactly the arrays fed by each updatable input' % (which, case['name']))
+                hit = any(v[0] == 'impl:update-vs-fresh:%s' % case['name'] for v in ctx.violations)
+                ctx.report('tie:update-text:%s' % case['name'],
+                           'generated %s for %r: arrays filled in __init__ %s, blocks per argument %s, temp sources %s, constants %s / %s '
+                           '(obligation update_okb of coq/C08/Update.v is false)' % (
+                               which, case['expr'], t['arrs'], t['upd'], t['temp_srcs'], t['parrs'], t['pupd']),
+                           {'case': strip_case(case), 'tables': t, 'update_sequence_failed_on_impl': hit}, found_input=hit)
             elif name.startswith('C08_chunks'):
                 n, k, chunks = chunk_groups[idx - nfile_cases][b]
                 ctx.broken.append('correspondence C08 chunk_tasks model<->impl differs on (%d,%d)' % (n, k))
@@ -814,18 +883,27 @@ def run(ctx):
 
 
 META = {
-    'technique': 'Rocq proofs (induction over task lists/interleavings, list algebra, Z arithmetic) about a Gallina transcription of the assembly drivers '
-                 '+ exact correspondence of every predicted matrix/array with the implementation + bitwise cross-thread-count comparison',
+    'technique': 'Rocq proofs (induction over task lists/interleavings/nested kernel loops, list algebra, Z arithmetic, abstract slot store) about a Gallina '
+                 'transcription of the assembly drivers + exact correspondence of every predicted matrix/array with the implementation + obligation on the '
+                 'generated update() text + bitwise cross-thread-count comparison',
     'level_text': 'Theorems (Coq, unbounded): chunk_tasks partitions every task list for every k>=1 and commutes with elementwise maps (chunks_partition, '
                   'chunks_matching_slices); every interleaving of tasks with disjoint footprints gives the same memory (schedule_independent), instantiated for the '
                   'thread pool of multi_entries/multi_blocks on arbitrary index lists and any thread count (pool_schedule_independent, pool_write_sets_disjoint, '
-                  'subset_consistent_serial) and for the prange over mu0 of the generic vector core incl. mirrored writes, any number of inner levels (prange_schedule_independent); lower triangle + '
-                  'mirrored strictly-lower part equals the full assembly for scalar entries and for BSR blocks with transposed mirror blocks (symmetric_equals_full; '
-                  'the same statement for the generic core kernel is NOT proved, only tied exactly); the packed<->blocked index map is the stated permutation and a bijection, square and '
-                  'non-square component blocks (packed_blocked_permutation, layout_permutation_bijective). Tie: on every run the model predicts, exactly, every '
-                  'assembled matrix (symmetric flag x format x layout), the generic core arrays, chunk_tasks and the transpose index arrays from the entries over the '
-                  'full pattern of shipped and compiled assemblers (dims 1..3, scalar, 2x2, 3x3, 2x3 blocks); all outputs are compared bitwise across thread counts '
-                  'in fresh processes; the property is also evaluated on the implementation against a harness-side dense oracle within a stated rounding bound.',
-    'level_note': 'Partial: the real OpenMP/GIL scheduling and memory model, scipy.sparse conversions, the C compiler and update()/update_params() slot layout are '
-                  'exercised by the run, not proved. Trusted: Coq kernel + vm_compute, the hand transcription (validated by the exact tie), harness generators/oracle.',
+                  'subset_consistent_serial) and for the prange over mu0 of the generic vector core incl. mirrored writes, any number of inner levels '
+                  '(prange_schedule_independent); lower triangle + mirrored strictly-lower part equals the full assembly for scalar entries and for BSR blocks with '
+                  'transposed mirror blocks (symmetric_equals_full) and for the generic core kernel with its skip rule and mirrored transposed component blocks, any '
+                  'number of levels (symmetric_equals_full_core); the packed<->blocked index map is the stated permutation and a bijection, square and non-square '
+                  'component blocks (packed_blocked_permutation, layout_permutation_bijective); COO->CSR and COO->CSC denote the same entries, sum_duplicates keeps '
+                  'every column sum and is canonical (format_irrelevant_partial, sum_duplicates_same, sum_duplicates_canonical); on an abstract slot store, update(n) '
+                  'equals fresh construction for single updates and whole histories iff-style under the generator obligation "every array fed by an updatable input '
+                  'is refreshed, nothing else" (update_equals_fresh, update_history_equals_fresh, reuse_idempotent, update_checked_equals_fresh, '
+                  'update_incomplete_stale). Tie: on every run the model predicts, exactly, every assembled matrix (symmetric flag x format x layout), the generic core '
+                  'arrays, chunk_tasks and the transpose index arrays from the entries over the full pattern of shipped and compiled assemblers (dims 1..3, scalar, 2x2, '
+                  '3x3, 2x3 blocks); the generated __init__/update()/update_params() text of every compiled corpus form is translated (fail-closed) into the tables of '
+                  'Update.v and the obligation update_okb is evaluated in Coq; all outputs are compared bitwise across thread counts in fresh processes; the property '
+                  '(incl. update sequences vs fresh construction, on-demand bbox) is evaluated on the implementation against a harness-side dense oracle within a '
+                  'stated rounding bound.',
+    'level_note': 'Partial: the real OpenMP/GIL scheduling and memory model, scipy.sparse conversions (modelled for COO/CSR/CSC, BSR and the MLB->COO step only tied), '
+                  'the C compiler are exercised by the run, not proved. Trusted: Coq kernel + vm_compute, the hand transcription (validated by the exact tie), '
+                  'translate/c08_update_text.py (reader of the generated text), harness generators/oracle.',
 }
